@@ -243,8 +243,9 @@ nni_aio_close(nni_aio *aio)
 void
 nni_aio_set_timeout(nni_aio *aio, nni_duration when)
 {
-	aio->a_timeout    = when;
-	aio->a_use_expire = false;
+	aio->a_timeout      = when;
+	aio->a_timeout_dflt = (when == NNG_DURATION_DEFAULT);
+	aio->a_use_expire   = false;
 }
 
 void
@@ -335,6 +336,10 @@ nni_aio_busy(nni_aio *aio)
 void
 nni_aio_reset(nni_aio *aio)
 {
+	if (aio->a_timeout_dflt) {
+		// forget the default of the object it was last used with
+		aio->a_timeout = NNG_DURATION_DEFAULT;
+	}
 	aio->a_result           = NNG_OK;
 	aio->a_count            = 0;
 	aio->a_abort            = false;
@@ -743,7 +748,9 @@ nni_aio_get_iov(nni_aio *aio, unsigned *nio_p, nni_iov **iov_p)
 void
 nni_aio_normalize_timeout(nni_aio *aio, nng_duration dur)
 {
-	if (aio->a_timeout == NNG_DURATION_DEFAULT) {
+	// The default is that of the object the operation is submitted to,
+	// as it is now: it must not stick to the aio.
+	if (aio->a_timeout_dflt) {
 		aio->a_timeout = dur;
 	}
 }
